@@ -9,7 +9,14 @@ mkdir -p $V/build/expand
 mv $V/build/expand/konst_kernel.rs.tmp $V/build/expand/konst_kernel.rs
 (cd $R && CARGO_TARGET_DIR=$V/build/expand_target cargo rustc --offline -q -p konst --lib --features rust_1_83 -- -Zunpretty=expanded > $V/build/expand/konst.rs.tmp 2>$V/build/expand/konst.err) || { echo 'rs2lean: macro expansion of konst failed'; tail -20 $V/build/expand/konst.err; exit 3; }
 mv $V/build/expand/konst.rs.tmp $V/build/expand/konst.rs
+# probe crate: representative call sites of konst's macros, expanded against $R
+mkdir -p $V/build/probes
+rm -rf $V/build/probes/src && cp -r $V/translator/probes/src $V/build/probes/src
+printf '[package]\nname = "probes"\nversion = "0.1.0"\nedition = "2021"\n[dependencies]\nkonst = { path = "%s/konst", features = ["rust_1_83"] }\n[workspace]\n' "$R" > $V/build/probes/Cargo.toml
+cp -n $R/Cargo.lock $V/build/probes/Cargo.lock 2>/dev/null || true
+(cd $V/build/probes && CARGO_TARGET_DIR=$V/build/expand_target cargo rustc --offline -q --lib -- -Zunpretty=expanded > $V/build/expand/probes.rs.tmp 2>$V/build/expand/probes.err) || { echo 'rs2lean: macro expansion of the probe crate failed'; grep -E "^error" -A 6 $V/build/expand/probes.err | head -30; exit 3; }
+mv $V/build/expand/probes.rs.tmp $V/build/expand/probes.rs
 (cd $V/translator && CARGO_TARGET_DIR=$V/build/translator cargo build --offline -q)
-$V/build/translator/debug/rs2lean --src konst_kernel=$V/build/expand/konst_kernel.rs --src konst=$V/build/expand/konst.rs --targets $V/translator/targets.txt --out $V/lean/KonstVerif/Extracted/Gen
+$V/build/translator/debug/rs2lean --src konst_kernel=$V/build/expand/konst_kernel.rs --src konst=$V/build/expand/konst.rs --src probes=$V/build/expand/probes.rs --targets $V/translator/targets.txt --out $V/lean/KonstVerif/Extracted/Gen
 # the failing-input search program follows the regenerated signatures (built and run only when an obligation breaks)
 python3 $V/translator/gen_search.py search > /dev/null 2>&1 || true
